@@ -361,7 +361,21 @@ impl<'tcx> Cx<'tcx> {
                 };
                 format!("{{\"rv\":\"un\",\"op\":\"{}\",\"a\":{}}}", n, self.op_json(body, a, env, owner))
             }
-            Rvalue::Discriminant(p) => format!("{{\"rv\":\"discr\",\"p\":{}}}", self.place_json(body, p)),
+            Rvalue::Discriminant(p) => {
+                // variant names by discriminant value (also for enums of external crates, which have no adt record)
+                let pty = p.ty(&body.local_decls, self.tcx).ty;
+                let mut extra = String::new();
+                if let ty::Adt(adt, _) = pty.kind() {
+                    if adt.is_enum() && adt.variants().len() <= 64 {
+                        let vs: Vec<String> = adt
+                            .discriminants(self.tcx)
+                            .map(|(vi, d)| format!("[{},{}]", d.val, esc(&adt.variant(vi).name.to_string())))
+                            .collect();
+                        extra = format!(",\"adt\":{},\"vn\":[{}]", esc(&self.path(adt.did())), vs.join(","));
+                    }
+                }
+                format!("{{\"rv\":\"discr\",\"p\":{}{}}}", self.place_json(body, p), extra)
+            }
             Rvalue::Aggregate(k, ops) => {
                 let kind = match &**k {
                     AggregateKind::Array(_) => "\"array\"".to_string(),
